@@ -116,6 +116,11 @@ pub fn opt_insert<K, V>(g: &mut Option<OrderedMap<K, V>>, k: K, v: V) -> (r: Opt
     ensures omap(*final(g)) == omap(*old(g)).insert(k, v), *final(g) is Some,
 { unimplemented!() }
 
+#[verifier::external_body]
+pub fn opt_swap_remove<K, V>(g: &mut Option<OrderedMap<K, V>>, k: &K) -> (r: Option<V>)
+    ensures omap(*final(g)) == omap(*old(g)).remove(*k),
+{ unimplemented!() }
+
 //@@ type file=fe2o3-amqp/src/link/delivery.rs kind=struct name=UnsettledMessage
 //@@ end
 //@@ type file=fe2o3-amqp/src/endpoint/mod.rs kind=enum name=Settlement
@@ -301,6 +306,7 @@ impl SenderLink {
 //@@ param writer : &mut ChanSender<LinkFrame>
 //@@ subst `oneshot::channel()` => `oneshot_channel()` rule=R9
 //@@ subst `self .send_transfer_without_modifying_unsettled_map(writer, transfer, payload)` => `self.queue_frames_of_delivery(writer, transfer, payload)` rule=R9
+//@@ subst `guard.as_mut().and_then(|m| m.swap_remove(&delivery_tag))` => `opt_swap_remove(&mut *guard, &delivery_tag)` rule=R15
 //@@ subst `let mut guard = self.unsettled.write();` => `let mut guard = &mut self.unsettled;` rule=R4
 //@@ subst `guard .get_or_insert(OrderedMap::new()) .insert(delivery_tag.clone(), unsettled)` => `opt_insert(&mut *guard, delivery_tag.clone(), unsettled)` rule=R15
 //@@ spec
@@ -315,7 +321,7 @@ impl SenderLink {
                     && omap(final(self).unsettled)[tag].state is None
                     && (forall|k: DeliveryTag| k != tag && omap(old(self).unsettled).contains_key(k) ==> #[trigger] omap(final(self).unsettled)[k] == omap(old(self).unsettled)[k])
         }),
-        r is Err ==> omap(final(self).unsettled) == omap(old(self).unsettled),
+        r is Err ==> omap(final(self).unsettled) == omap(old(self).unsettled) || (transfer.delivery_tag is Some && omap(final(self).unsettled) == omap(old(self).unsettled).remove(transfer.delivery_tag->Some_0)),   // [C02.send.failed-send-leaves-no-entry] a send that could not be queued leaves no completion channel behind under its tag
         final(self).credits_consumed == old(self).credits_consumed && final(self).output_handle == old(self).output_handle && final(self).snd_settle_mode == old(self).snd_settle_mode,
 //@@ end
 }
